@@ -52,7 +52,8 @@ FieldWithin(e, f, n) ==
   ELSE \A r \in 1..Len(f) :
          /\ Len(f[r]) <= (IF row[2] = "base" THEN 1 ELSE row[3])
          /\ \A c \in 1..Len(f[r]) : Len(f[r][c]) <= (IF row[2] = "base" THEN 1 ELSE IF c <= Len(row[4]) THEN row[4][c] ELSE 1)
-LeafOk(e, t) == NoEdgeBlank(t) /\ Esc!WellFormed(t, EscEc(e), e.fam)
+\* (a truncation character in the text is a delimiter to be escaped, not clean text)
+LeafOk(e, t) == NoEdgeBlank(t) /\ Esc!WellFormed(t, EscEc(e), e.fam) /\ (e.ec[6] # 0 => \A i \in 1..Len(t) : t[i] # e.ec[6])
 RtPremise(e) ==
   LET seg == ParseSeg(e.text, Ec(e))
       lo == IF seg.name = MSHname THEN 3 ELSE 1 IN
